@@ -12,11 +12,13 @@ MODEL_MODULES = ["PdsVerif.Model.BankTime"]
 REQUIRED = ["PdsVerif.C07." + n for n in """
     impulse_real_iff zero_phase_flags
     tri_supports_straddle fbank_supports_straddle gabor_supports_straddle zero_phase_supports_straddle
-    gabor_env_eq gabor_time_tail gabor_time_tail_iff gabor_support_tail gabor_raises_iff_peak_below
+    gabor_logenv_eq gabor_env_eq gabor_peak gabor_time_tail_iff gabor_time_tail gabor_support_tail
+    gabor_raises_iff_peak_below
     gammatone_env_eq gammatone_env_mode gammatone_env_antitone_beyond_mode gammatone_time_tail
-    newton_step_eq newton_step_moves_right newton_start_gt_mode newton_loop_sound newton_terminates
-    env_le_at_Tstar gammatone_causal_starts_at_0 gammatone_support_tail gammatone_left_zero
-    max_centered_support_shift
+    newton_step_eq newton_step_moves_right newton_start_gt_mode newton_loop_sound env_le_at_Tstar
+    newton_loop_terminates newton_terminates
+    gammatone_causal_starts_at_0 gammatone_support_tail max_centered_support_shift
+    tri_time_tail tri_outside_support_far
     """.split()]
 RULE = (
     "banks: 4 classes x {mel, bark, linear, octave} x rates {4000, 8000, 11025, 16000, 22050, 44100} x "
